@@ -101,7 +101,7 @@ static size_t rtCurrentDevice(void *userdata, size_t track)
 static void rtSongBegin(void *userdata)
 {
     OPNMIDIplay *context = reinterpret_cast<OPNMIDIplay *>(userdata);
-    return context->realTime_ResetState();
+    return context->realTime_SongBegin();
 }
 /* NonStandard calls End */
 
